@@ -19,7 +19,7 @@ def _alarm(signum, frame):
     raise Timeout()
 
 
-def bounded(fn, seconds=5):
+def bounded(fn, seconds=60):
     signal.signal(signal.SIGALRM, _alarm)
     signal.alarm(seconds)
     try:
@@ -51,7 +51,7 @@ def outcome(g, text, kind="molecule", seeds=(1, 2, 3)):
     res = None
     for s in seeds:
         try:
-            m = bounded(lambda: obj.generate(rng=np.random.default_rng(s)), 20)
+            m = bounded(lambda: obj.generate(rng=np.random.default_rng(s)), 180)
             return ("molecule", m.smiles, gen)
         except Timeout:
             return ("timeout",)
@@ -293,9 +293,9 @@ def run(tier):
         text = "".join(s)
         t0 = time.time()
         try:
-            bounded(lambda: g.System(text), 10)
+            bounded(lambda: g.System(text), 60)
         except Timeout:
-            v.violation("C15:parse-does-not-terminate", f"System({text!r}) did not return within 10 s", {"text": text})
+            v.violation("C15:parse-does-not-terminate", f"System({text!r}) did not return within 60 s", {"text": text})
         except Exception:
             pass
         n_fuzz += 1
@@ -307,5 +307,5 @@ def run(tier):
     v.assumptions = ["any exception counts as a rejection; a returned molecule (or, at token level, a returned token) is the violation",
                      "ill-formed token texts: breaking actions of TokenScan plus every single-symbol insertion / deletion on every valid text that violates a rule listed in the statement "
                      "(branch balance in written order, descriptor bonding two atoms)",
-                     "the termination clause on arbitrary bytes is bounded-time fuzzing (10 s per parse), not model checking"]
+                     "the termination clause on arbitrary bytes is bounded-time fuzzing (60 s per parse), not model checking"]
     return v.finish()
